@@ -33,8 +33,10 @@ const (
 	port  = "transfer"
 	chanA = "channel-0" // the "remote" end: incoming packets are sent from here
 	chanB = "channel-1" // the "local" end: incoming packets arrive here
-	base  = "uatom"     // native denom sent over chanA; arrives on chanB as the voucher denomIn
-	quote = "uusdc"     // the swap output denom
+	chanC = "channel-2" // second loop-back pair, used by outgoing legs only
+	chanD = "channel-3"
+	base  = "uatom" // native denom sent over chanA; arrives on chanB as the voucher denomIn
+	quote = "uusdc" // the swap output denom
 )
 
 var proofHeight = clienttypes.NewHeight(0, 2)
@@ -147,25 +149,28 @@ func newEnv() *env {
 	e.rcv = []sdk.AccAddress{h.Accts[4].Addr, h.Accts[5].Addr, h.Accts[6].Addr}
 	e.relayer = h.Accts[7].Addr.String()
 
-	// channel handshake over the localhost connection
-	e.must(func(ctx sdk.Context) error {
-		_, err := a.IBCKeeper.ChannelOpenInit(ctx, channeltypes.NewMsgChannelOpenInit(port, transfertypes.V1, channeltypes.UNORDERED,
-			[]string{ibcexported.LocalhostConnectionID}, port, e.relayer))
-		if err != nil {
+	// channel handshakes over the localhost connection: channel-0 <-> channel-1 and channel-2 <-> channel-3
+	for _, pair := range [][2]string{{chanA, chanB}, {chanC, chanD}} {
+		chanA, chanB := pair[0], pair[1]
+		e.must(func(ctx sdk.Context) error {
+			_, err := a.IBCKeeper.ChannelOpenInit(ctx, channeltypes.NewMsgChannelOpenInit(port, transfertypes.V1, channeltypes.UNORDERED,
+				[]string{ibcexported.LocalhostConnectionID}, port, e.relayer))
+			if err != nil {
+				return err
+			}
+			_, err = a.IBCKeeper.ChannelOpenTry(ctx, channeltypes.NewMsgChannelOpenTry(port, transfertypes.V1, channeltypes.UNORDERED,
+				[]string{ibcexported.LocalhostConnectionID}, port, chanA, transfertypes.V1, localhost.SentinelProof, proofHeight, e.relayer))
+			if err != nil {
+				return err
+			}
+			_, err = a.IBCKeeper.ChannelOpenAck(ctx, channeltypes.NewMsgChannelOpenAck(port, chanA, chanB, transfertypes.V1, localhost.SentinelProof, proofHeight, e.relayer))
+			if err != nil {
+				return err
+			}
+			_, err = a.IBCKeeper.ChannelOpenConfirm(ctx, channeltypes.NewMsgChannelOpenConfirm(port, chanB, localhost.SentinelProof, proofHeight, e.relayer))
 			return err
-		}
-		_, err = a.IBCKeeper.ChannelOpenTry(ctx, channeltypes.NewMsgChannelOpenTry(port, transfertypes.V1, channeltypes.UNORDERED,
-			[]string{ibcexported.LocalhostConnectionID}, port, chanA, transfertypes.V1, localhost.SentinelProof, proofHeight, e.relayer))
-		if err != nil {
-			return err
-		}
-		_, err = a.IBCKeeper.ChannelOpenAck(ctx, channeltypes.NewMsgChannelOpenAck(port, chanA, chanB, transfertypes.V1, localhost.SentinelProof, proofHeight, e.relayer))
-		if err != nil {
-			return err
-		}
-		_, err = a.IBCKeeper.ChannelOpenConfirm(ctx, channeltypes.NewMsgChannelOpenConfirm(port, chanB, localhost.SentinelProof, proofHeight, e.relayer))
-		return err
-	})
+		})
+	}
 
 	// bring a large amount of the voucher denom into existence (plain transfer to the LP)
 	amt, _ := sdkmath.NewIntFromString("1000000000000000000000000")
@@ -283,11 +288,14 @@ func (e *env) farRecv(p channeltypes.Packet, fail bool) ([]byte, error) {
 
 func (e *env) bal(a sdk.AccAddress, d string) sdkmath.Int { return e.h.Bal(e.h.CtxAt(e.now), a, d) }
 
-// locked(d) = coins of d held in the two escrow accounts minus the supply of d: it rises by x when
+// locked(d) = coins of d held in the four escrow accounts minus the supply of d: it rises by x when
 // x is escrowed or burned by an outgoing transfer and falls by x on a refund, an unescrow or a mint.
 func (e *env) locked(d string) sdkmath.Int {
 	ctx := e.h.CtxAt(e.now)
-	s := e.h.Bal(ctx, transfertypes.GetEscrowAddress(port, chanA), d).Add(e.h.Bal(ctx, transfertypes.GetEscrowAddress(port, chanB), d))
+	s := sdkmath.ZeroInt()
+	for _, ch := range []string{chanA, chanB, chanC, chanD} {
+		s = s.Add(e.h.Bal(ctx, transfertypes.GetEscrowAddress(port, ch), d))
+	}
 	return s.Sub(e.h.Supply(ctx, d))
 }
 
@@ -346,4 +354,12 @@ func (e *env) setWired(w bool) {
 func jsonStr(v any) string {
 	b, _ := json.Marshal(v)
 	return string(b)
+}
+
+// pad sends plain transfers over ch (from the LP, never relayed) until the channel's next send
+// sequence is n: IBC sequences are per channel, so anyone can align two channels this way.
+func (e *env) pad(ch string, n uint64) {
+	for e.nextSeqSend(ch) < n {
+		e.sendTransfer(ch, e.lp, e.far.String(), sdk.NewCoin(quote, sdkmath.NewInt(1)), "", 24*time.Hour)
+	}
 }
